@@ -4,6 +4,7 @@ C04 — tagged collections and decorators are applied as documented.
 import GontainerModel.Lemmas.C04Aux
 import GontainerModel.Model.Runtime
 import GontainerModel.Lemmas.Merge
+import GontainerModel.Lemmas.TaggedRuntime
 namespace GM.C04
 open GM
 
@@ -74,6 +75,31 @@ theorem tags_copied (name : String) (svc : Input.Service) (dm : Option Bool)
       svc.tags.map (fun t => (t.name, t.priority)) := by
   unfold Compile.compileService
   simp [h]
+
+/-! ### at run time (runtime model) -/
+
+/-- **`!tagged t` / `GetTaggedBy(t)` injects exactly the tagged services, in the documented order, each built per its own
+definition**: the call is the sequence of `get`s of the names `taggedOrder` lists (priority descending, then name ascending —
+`tagged_exact`, `tagged_sorted`), with the state and the context bag handed from one to the next; the first failure fails the
+whole call -/
+theorem tagged_at_run_time (f : Nat) (p : Runtime.Prog) (st : Runtime.St) (bag : Runtime.Bag) (tag : String) (hov : st.ovServices = []) :
+    Runtime.getTagged (f + 1) p st bag tag =
+      match Runtime.getAll (fun st bag n => Runtime.get f p st bag n) st bag (Runtime.taggedOrder p.out tag) with
+      | (st', bag', .ok vs) => (st', bag', .ok (.slice vs))
+      | (st', bag', .error e) => (st', bag', .error ("getTaggedBy(" ++ Val.quoteStr tag ++ "): " ++ e)) :=
+  Runtime.getTagged_is_sequence f p st bag tag hov
+
+/-- **every decorator is applied to every service carrying its tag, and only to those, in declaration order**: the decorator
+pass over the whole list does to the object, the state and the error exactly what the pass over `decoratorsFor` (the sublist
+of decorators whose tag the service carries, in list order — `decorators_in_declaration_order`) does; each step hands the
+decorator the tag, the service name and the current object followed by its resolved arguments, and its result replaces the
+object (`Runtime.decoStep`); the pass runs after the last call (`Runtime.getBody`) -/
+theorem decorators_at_run_time (ras : Runtime.St → Runtime.Bag → List Output.Arg → Runtime.St × Runtime.Bag × Except String (List Runtime.RV))
+    (p : Runtime.Prog) (s : Output.Service) (id : String) (st : Runtime.St) (bag : Runtime.Bag) (cur : Runtime.RV) :
+    let r := p.out.decorators.foldl (Runtime.decoStep ras p s id) (st, bag, cur, none, 0)
+    let r' := (decoratorsFor p.out s).foldl (Runtime.decoStep ras p s id) (st, bag, cur, none, 0)
+    (r.1, r.2.1, r.2.2.1, r.2.2.2.1) = (r'.1, r'.2.1, r'.2.2.1, r'.2.2.2.1) :=
+  Runtime.decoFold_filter ras p s id p.out.decorators st bag cur none 0
 
 -- non-vacuity: negative, equal and large priorities
 def demo : Output.Output :=
